@@ -82,6 +82,17 @@ class PM3(pydantic.BaseModel):
     u: int = 0
     v: Optional[int] = None
 
+# a field that repr() hides but == compares
+@dataclass
+class DCH:
+    a: int
+    hidden: int = field(default=0, repr=False)
+
+@attrs.define
+class ATH:
+    m: int
+    hidden: int = attrs.field(default=0, repr=False)
+
 class NT3(NamedTuple):
     p: int
     q: str = "q"
@@ -133,6 +144,7 @@ def atom(rng, hashable=False, orderable=None):
     opts += [("' ' + 'x' * 90 + ' '", "longstr"), ("'\"' + 'wide text ' * 9 + ' '", "longstr"), ("'y' * 95", "longstr")]
     opts += [("NT3(1, r=4)", "namedtuple"), ("NT3(2, 'z')", "namedtuple"), ("NT3(3, 'q', 5)", "namedtuple")]
     if not hashable:
+        opts += [("DCH(1, hidden=2)", "dataclass"), ("DCH(2)", "dataclass"), ("ATH(1, hidden=2)", "attrs"), ("ATH(2)", "attrs")]
         opts += [("DC3(1, c=5)", "dataclass"), ("DC3(2, d=(1,))", "dataclass"), ("DC3(3, 'x', 0, (2,))", "dataclass"), ("DC3(4, 'y')", "dataclass"),
                  ("AT3(1, o='z')", "attrs"), ("AT3(2, p=5)", "attrs"), ("AT3(3, [], 'o', 7)", "attrs"), ("AT3(4, [1])", "attrs"), ("AT3(5, [1], 'o', 2)", "attrs"),
                  ("PM3(s=1, v=3)", "pydantic"), ("PM3(s=2, u=2)", "pydantic"), ("PM3(s=3, t='t', u=0, v=0)", "pydantic")]
